@@ -108,6 +108,10 @@ CORPUS_PROGS = [
     ("def f(a: bool, b: bool, c: bool, d: bool) -> bool:\n    return (d or a) and ((a == (b == c)) != (c or b))\n", [["a", "bool"], ["b", "bool"], ["c", "bool"], ["d", "bool"]], "bool"),
     ("def f(a: bool, b: bool, c: bool, d: bool) -> bool:\n    return (a and b) or (c and ((not a) ^ d))\n", [["a", "bool"], ["b", "bool"], ["c", "bool"], ["d", "bool"]], "bool"),
     ("def f(a: bool, b: bool, z: bool) -> bool:\n    return (a == b) and ((a != b) or z)\n", [["a", "bool"], ["b", "bool"], ["z", "bool"]], "bool"),
+    # a plain copy of a computed variable, then the negation of one alias as its last read, then a read of the other alias
+    ("def f(a: bool, b: bool, c: bool) -> Tuple[bool, bool]:\n    t = a and b\n    u = t\n    v = not t\n    return (u ^ c, v)\n", [["a", "bool"], ["b", "bool"], ["c", "bool"]], ["bool", "bool"]),
+    ("def f(a: bool, b: bool, c: bool) -> bool:\n    t = a ^ b\n    u = t\n    v = not u\n    w = v and c\n    return w or t\n", [["a", "bool"], ["b", "bool"], ["c", "bool"]], "bool"),
+    ("def f(a: Qint[2], b: Qint[2]) -> Tuple[Qint[2], Qint[2]]:\n    t = a + b\n    u = t\n    v = ~t\n    return (v, u ^ a)\n", [["a", "Qint2"], ["b", "Qint2"]], ["Qint2", "Qint2"]),
     # scratch variables whose names start like the return symbol
     ("def f(a: bool, b: bool, c: bool) -> bool:\n    _retv = a and b\n    return _retv ^ c\n", [["a", "bool"], ["b", "bool"], ["c", "bool"]], "bool"),
     ("def f(a: Qint[2], b: Qint[2]) -> Qint[2]:\n    _ret_tmp = a ^ b\n    return _ret_tmp + a\n", [["a", "Qint2"], ["b", "Qint2"]], "Qint2"),
